@@ -76,6 +76,7 @@ type c14Conn struct {
 	dir     network.Direction
 	streams int
 	rec     *c14Rec
+	w       *c14World // sequential worlds only: owner of the during-trim hook
 }
 
 func (c *c14Conn) RemotePeer() peer.ID            { return c.id }
@@ -87,6 +88,11 @@ func (c *c14Conn) CloseWithError(network.ConnErrorCode) error {
 	return nil
 }
 func (c *c14Conn) Stat() network.ConnStats {
+	// the only method the trim calls on a connection between its candidate
+	// snapshot and its selection loop (from the sort's comparator)
+	if c.w != nil && c.w.hookArmed {
+		c.w.tryHook()
+	}
 	return network.ConnStats{Stats: network.Stats{Direction: c.dir}, NumStreams: c.streams}
 }
 
@@ -143,12 +149,20 @@ type c14World struct {
 	protected [c14NP][c14NG]bool
 	pending   [][2]int // closed by a trim, Disconnected not yet delivered
 	dclosed   [c14ND]bool
-	line      []int64
+	line      []int64   // header
+	items     [][]int64 // per executed op: words + observation
 	sawEffectiveTrim, sawForceProtected bool
+	// during-trim hook: a script of ops 1..5 run synchronously from inside the
+	// trim, at the first Stat() call at which none of the script's peers has
+	// its segment locked by the comparator
+	hookArmed, hookFired bool
+	hookScript           []c14Op
+	duringAt             int     // index in items of the during-trim event (-1 = none)
+	duringEvent          []int64 // NS script-words.. obs
 }
 
 func c14New(cfg c14Cfg, r *verifh.Rand, out *verifh.Out) *c14World {
-	w := &c14World{cfg: cfg, out: out, rec: &c14Rec{closed: map[[2]int]int{}}}
+	w := &c14World{cfg: cfg, out: out, rec: &c14Rec{closed: map[[2]int]int{}}, duringAt: -1}
 	for p := 0; p < c14NP; p++ {
 		w.ids[p] = c14PeerID(p)
 		for c := 0; c < c14NC; c++ {
@@ -156,7 +170,7 @@ func c14New(cfg c14Cfg, r *verifh.Rand, out *verifh.Out) *c14World {
 			if r.Bool() {
 				dir = network.DirInbound
 			}
-			w.conns[p][c] = &c14Conn{p: p, c: c, id: w.ids[p], dir: dir, streams: r.Intn(3), rec: w.rec,
+			w.conns[p][c] = &c14Conn{p: p, c: c, id: w.ids[p], dir: dir, streams: r.Intn(3), rec: w.rec, w: w,
 				addr: ma.StringCast(fmt.Sprintf("/ip4/10.0.%d.%d/tcp/4001", p, c))}
 		}
 	}
@@ -198,9 +212,81 @@ func (w *c14World) cover(n string) {
 	}
 }
 
-// exec performs one operation on the implementation and appends the op and
-// the observation to the case line.
+// exec performs one operation on the implementation and records the op and
+// the observation.
 func (w *c14World) exec(o c14Op) {
+	w.apply(o)
+	synctest.Wait()
+	w.items = append(w.items, append(o.words(), w.observe(o.kind)...))
+}
+
+// tryHook is called from a fake conn's Stat() while a trim is sorting its
+// candidates.  The comparator holds the segment locks of the two peers it
+// compares; the script may only touch other segments (checked with TryLock:
+// everything here is single-threaded, so the answer stays valid).
+func (w *c14World) tryHook() {
+	for _, o := range w.hookScript {
+		seg := w.cm.segments.get(w.ids[o.a])
+		if !seg.TryLock() {
+			w.cover("during.hook_deferred_segment_locked")
+			return
+		}
+		seg.Unlock()
+	}
+	w.hookArmed = false
+	w.hookFired = true
+	for _, o := range w.hookScript {
+		w.apply(o)
+	}
+}
+
+// execDuring runs TrimOpenConns with the script armed.  If the hook fired the
+// event is recorded as the case's during-trim event, otherwise as a plain
+// TrimOpenConns.
+func (w *c14World) execDuring(script []c14Op) {
+	w.hookScript, w.hookArmed, w.hookFired = script, true, false
+	w.preTrimCoverage()
+	w.cm.TrimOpenConns(context.Background())
+	w.hookArmed = false
+	synctest.Wait()
+	if !w.hookFired {
+		w.cover("during.hook_not_fired")
+		w.items = append(w.items, append(c14Op{kind: 12}.words(), w.observe(12)...))
+		return
+	}
+	w.cover("during.hook_fired")
+	w.duringAt = len(w.items)
+	ev := []int64{int64(len(script))}
+	for _, o := range script {
+		ev = append(ev, o.words()...)
+	}
+	w.duringEvent = append(ev, w.observe(12)...)
+}
+
+// caseLine assembles the case: kind 0 (sequential) or kind 2 (with one
+// during-trim event).
+func (w *c14World) caseLine() []int64 {
+	line := append([]int64{}, w.line...)
+	if w.duringAt < 0 {
+		for _, it := range w.items {
+			line = append(line, it...)
+		}
+		return line
+	}
+	line[0] = 2
+	line = append(line, int64(w.duringAt))
+	for _, it := range w.items[:w.duringAt] {
+		line = append(line, it...)
+	}
+	line = append(line, w.duringEvent...)
+	for _, it := range w.items[w.duringAt:] {
+		line = append(line, it...)
+	}
+	return line
+}
+
+// apply performs one operation on the implementation (no observation).
+func (w *c14World) apply(o c14Op) {
 	cm := w.cm
 	p, x := int(o.a), int(o.b)
 	inP := func() bool { return p >= 0 && p < c14NP }
@@ -322,15 +408,18 @@ func (w *c14World) exec(o c14Op) {
 	case 13:
 		cm.ForceTrim()
 	}
-	synctest.Wait()
-	w.line = append(w.line, o.words()...)
-	// observation
-	w.line = append(w.line, int64(cm.GetInfo().ConnCount))
+}
+
+// observe returns the observation block (count, peers, closed set).
+func (w *c14World) observe(kind int64) []int64 {
+	cm := w.cm
+	var obs []int64
+	obs = append(obs, int64(cm.GetInfo().ConnCount))
 	absentBefore := 0
 	for p := 0; p < c14NP; p++ {
 		ti := cm.GetTagInfo(w.ids[p])
 		if ti == nil {
-			w.line = append(w.line, 0, 0, 0)
+			obs = append(obs, 0, 0, 0)
 			absentBefore++
 			continue
 		}
@@ -338,19 +427,19 @@ func (w *c14World) exec(o c14Op) {
 		for _, v := range ti.Tags {
 			sum += v
 		}
-		w.line = append(w.line, 1, int64(ti.Value), int64(sum))
+		obs = append(obs, 1, int64(ti.Value), int64(sum))
 	}
 	closed, dup := w.rec.take()
-	w.line = append(w.line, int64(len(closed)))
+	obs = append(obs, int64(len(closed)))
 	anyProt := false
 	for _, pc := range closed {
-		w.line = append(w.line, int64(pc[0]), int64(pc[1]))
+		obs = append(obs, int64(pc[0]), int64(pc[1]))
 		if w.isProt(pc[0]) {
 			anyProt = true
 		}
 		w.pending = append(w.pending, pc)
 	}
-	switch o.kind {
+	switch kind {
 	case 12:
 		if len(closed) > 0 {
 			w.cover("trim.closed_some")
@@ -372,6 +461,7 @@ func (w *c14World) exec(o c14Op) {
 			w.cover("force.same_conn_closed_twice")
 		}
 	}
+	return obs
 }
 
 func (w *c14World) isProt(p int) bool {
@@ -582,7 +672,7 @@ func c14RandomCase(out *verifh.Out, r *verifh.Rand, nops int) {
 		if w.sawForceProtected {
 			out.Cover("cases.with_forced_close_of_protected")
 		}
-		out.Case(w.line)
+		out.Case(w.caseLine())
 	})
 }
 
@@ -596,7 +686,7 @@ func c14Directed(out *verifh.Out, r *verifh.Rand) {
 				w.exec(o)
 			}
 			out.Cover("cases.directed")
-			out.Case(w.line)
+			out.Case(w.caseLine())
 		})
 	}
 	dts := []c14DT{{2, 1, 0, 20}, {4, 0, 1, 0}}
@@ -621,8 +711,153 @@ func c14Directed(out *verifh.Out, r *verifh.Rand) {
 	run(c14Cfg{1, 3, 100, 2, dts}, []c14Op{C(0, 0), C(0, 1), C(0, 2), C(1, 0), C(2, 0), C(3, 0), P(1, 0), P(2, 0), P(3, 0), force})
 	run(c14Cfg{1, 3, 100, 2, dts}, []c14Op{C(0, 0), C(1, 0), C(2, 0), C(3, 0), T(1, 0, 1), T(2, 0, 2), T(3, 0, 3), P(1, 0), P(2, 0), P(3, 0), force})
 	run(c14Cfg{0, 3, 100, 2, dts}, []c14Op{C(0, 0), C(0, 1), C(1, 0), C(2, 0), C(3, 0), C(3, 1), T(1, 0, 1), T(2, 0, 2), T(3, 0, 3), P(1, 0), P(2, 0), P(3, 0), force})
+	// during-trim: peer 4 (lowest value) loses its last connection and reconnects
+	// between the trim's candidate snapshot and its selection loop (the hook
+	// fires in the comparison of the tied peers 2 and 3); later its new
+	// connection is disconnected
+	synctest.Test(c14T, func(t *testing.T) {
+		w := c14New(c14Cfg{1, 3, 0, 2, dts}, r, out)
+		defer w.close()
+		for _, o := range []c14Op{C(2, 0), C(3, 0), C(4, 0), C(5, 0), T(5, 0, 5), T(4, 0, -1)} {
+			w.exec(o)
+		}
+		w.execDuring([]c14Op{D(4, 0), C(4, 1)})
+		for _, o := range []c14Op{D(4, 1), trim, D(2, 0), D(3, 0), D(5, 0)} {
+			w.exec(o)
+		}
+		if w.duringAt >= 0 {
+			out.Cover("cases.during_trim_directed")
+		}
+		out.Case(w.caseLine())
+	})
 	// too many in grace: nothing is closed although above the low watermark
 	run(c14Cfg{3, 4, 10, 2, dts}, []c14Op{C(0, 0), C(1, 0), A(10), C(2, 0), C(3, 0), C(4, 0), trim, A(10), trim})
+}
+
+// ---- during-trim cases -----------------------------------------------------------
+// A deterministic interleaving class: a short script of Connected /
+// Disconnected / tag ops runs from inside TrimOpenConns, between the candidate
+// snapshot and the selection loop (see tryHook).  Judged at quiescence by the
+// bookkeeping monitor; the rest of the case continues sequentially so that
+// later notifications for the touched peers are checked too.
+func (w *c14World) trackedConns(p int) (res []int) {
+	for c, b := range w.tracked[p] {
+		if b {
+			res = append(res, c)
+		}
+	}
+	return
+}
+
+func (w *c14World) randScript(r *verifh.Rand) []c14Op {
+	var conn []int
+	for p := 0; p < c14NP; p++ {
+		if len(w.trackedConns(p)) > 0 {
+			conn = append(conn, p)
+		}
+	}
+	if len(conn) == 0 {
+		return []c14Op{{kind: 3, a: int64(r.Intn(c14NP)), b: 0, v: 1}}
+	}
+	P := conn[r.Intn(len(conn))]
+	free := func(p int) int64 {
+		for c := 0; c < c14NC; c++ {
+			if !w.tracked[p][c] {
+				return int64(c)
+			}
+		}
+		return int64(r.Intn(c14NC))
+	}
+	var sc []c14Op
+	dropAll := func(p int) {
+		for _, c := range w.trackedConns(p) {
+			sc = append(sc, c14Op{kind: 2, a: int64(p), b: int64(c)})
+		}
+	}
+	switch r.Intn(6) {
+	case 0, 1: // P loses every connection and reconnects on a new one
+		dropAll(P)
+		sc = append(sc, c14Op{kind: 1, a: int64(P), b: free(P)})
+	case 2: // P goes away
+		dropAll(P)
+		if r.Bool() {
+			sc = append(sc, c14Op{kind: 3, a: int64(P), b: 0, v: int64(r.Intn(4))}) // late tag recreates a temp entry
+		}
+	case 3: // one more connection, a tag change
+		sc = append(sc, c14Op{kind: 1, a: int64(P), b: free(P)}, c14Op{kind: 3, a: int64(P), b: int64(r.Intn(c14NT)), v: int64(r.Intn(6) - 2)})
+	case 4: // a new peer appears, tagged first
+		q := int64(r.Intn(c14NP))
+		sc = append(sc, c14Op{kind: 5, a: q, b: 1, v: int64(1 + r.Intn(3))}, c14Op{kind: 1, a: q, b: free(int(q))})
+	default:
+		n := 1 + r.Intn(4)
+		for i := 0; i < n; i++ {
+			q := int64(conn[r.Intn(len(conn))])
+			switch r.Intn(5) {
+			case 0:
+				sc = append(sc, c14Op{kind: 1, a: q, b: int64(r.Intn(c14NC))})
+			case 1, 2:
+				sc = append(sc, c14Op{kind: 2, a: q, b: int64(r.Intn(c14NC))})
+			case 3:
+				sc = append(sc, c14Op{kind: 3, a: q, b: int64(r.Intn(c14NT)), v: int64(r.Intn(6) - 2)})
+			default:
+				sc = append(sc, c14Op{kind: 4, a: q, b: int64(r.Intn(c14NT))})
+			}
+		}
+	}
+	return sc
+}
+
+func c14DuringCase(out *verifh.Out, r *verifh.Rand) {
+	synctest.Test(c14T, func(t *testing.T) {
+		cfg := c14RandCfg(r)
+		cfg.low = int64(1 + r.Intn(3))
+		cfg.high = cfg.low + 2
+		cfg.grace = []int64{0, 0, 3}[r.Intn(3)]
+		w := c14New(cfg, r, out)
+		defer w.close()
+		// everybody connects (values mostly tie at 0 so that the comparator reaches Stat)
+		for p := 0; p < c14NP; p++ {
+			if r.Chance(5, 6) {
+				w.exec(c14Op{kind: 1, a: int64(p), b: int64(r.Intn(c14NC))})
+				if r.Chance(1, 3) {
+					w.exec(c14Op{kind: 1, a: int64(p), b: int64(r.Intn(c14NC))})
+				}
+			} else if r.Bool() {
+				w.exec(c14Op{kind: 3, a: int64(p), b: 0, v: int64(r.Intn(3))}) // early tag: temp entry
+			}
+		}
+		for i := r.Intn(4); i > 0; i-- {
+			w.exec(c14Op{kind: 3, a: int64(r.Intn(c14NP)), b: int64(r.Intn(c14NT)), v: []int64{-1, 0, 1, 1, 2}[r.Intn(5)]})
+		}
+		if r.Chance(1, 4) {
+			w.exec(c14Op{kind: 9, a: int64(r.Intn(c14NP)), b: 0})
+		}
+		if cfg.grace > 0 {
+			w.exec(c14Op{kind: 11, a: cfg.grace + int64(r.Intn(2))})
+		}
+		w.execDuring(w.randScript(r))
+		// afterwards: the notifications for what was closed / reconnected, more trims
+		n := 4 + r.Intn(10)
+		for i := 0; i < n; i++ {
+			switch {
+			case r.Chance(1, 3):
+				p := r.Intn(c14NP)
+				if cs := w.trackedConns(p); len(cs) > 0 {
+					w.exec(c14Op{kind: 2, a: int64(p), b: int64(cs[r.Intn(len(cs))])})
+					continue
+				}
+				fallthrough
+			default:
+				w.exec(w.randOp(r, 0))
+			}
+		}
+		if w.duringAt < 0 {
+			out.Cover("cases.during_trim_attempted_but_sequential")
+		} else {
+			out.Cover("cases.during_trim")
+		}
+		out.Case(w.caseLine())
+	})
 }
 
 // ---- concurrent cases ----------------------------------------------------------
@@ -810,6 +1045,13 @@ func TestVerifC14(t *testing.T) {
 	for i := 0; i < n; i++ {
 		c14RandomCase(out, r, 25+r.Intn(45))
 	}
+	nd := 900
+	if thorough {
+		nd = 40000
+	}
+	for i := 0; i < nd; i++ {
+		c14DuringCase(out, r)
+	}
 	nc := 300
 	if thorough {
 		nc = 10000
@@ -830,7 +1072,7 @@ func TestVerifC14Replay(t *testing.T) {
 	defer out.Close()
 	c14T = t
 	in := verifh.ReplayCase()
-	if len(in) < 7 || in[0] != 0 {
+	if len(in) < 7 || (in[0] != 0 && in[0] != 2) {
 		t.Fatal("no case")
 	}
 	np := int(in[1])
@@ -840,11 +1082,10 @@ func TestVerifC14Replay(t *testing.T) {
 		cfg.dts = append(cfg.dts, c14DT{in[i], in[i+1], in[i+2], in[i+3]})
 		i += 4
 	}
-	var ops []c14Op
-	for i < len(in) {
+	readOp := func() (c14Op, bool) {
 		n := c14OpLen(in[i])
 		if i+n > len(in) {
-			break
+			return c14Op{}, false
 		}
 		o := c14Op{kind: in[i]}
 		if n > 1 {
@@ -856,21 +1097,53 @@ func TestVerifC14Replay(t *testing.T) {
 		if n > 3 {
 			o.v = in[i+3]
 		}
-		ops = append(ops, o)
 		i += n
-		// skip the recorded observation
+		return o, true
+	}
+	skipObs := func() {
 		i += 1 + 3*np
-		if i >= len(in) {
+		if i < len(in) {
+			i += 1 + 2*int(in[i])
+		}
+	}
+	var ops, script []c14Op
+	npre := -1
+	if in[0] == 2 {
+		npre = int(in[i])
+		i++
+	}
+	for i < len(in) {
+		if len(ops) == npre && script == nil {
+			ns := int(in[i])
+			i++
+			script = []c14Op{}
+			for k := 0; k < ns && i < len(in); k++ {
+				if o, ok := readOp(); ok {
+					script = append(script, o)
+				}
+			}
+			skipObs()
+			continue
+		}
+		o, ok := readOp()
+		if !ok {
 			break
 		}
-		i += 1 + 2*int(in[i])
+		ops = append(ops, o)
+		skipObs()
 	}
 	synctest.Test(t, func(t *testing.T) {
 		w := c14New(cfg, verifh.NewRand(1), out)
 		defer w.close()
-		for _, o := range ops {
+		for k, o := range ops {
+			if k == npre && script != nil {
+				w.execDuring(script)
+			}
 			w.exec(o)
 		}
-		out.Case(w.line)
+		if len(ops) == npre && script != nil {
+			w.execDuring(script)
+		}
+		out.Case(w.caseLine())
 	})
 }
